@@ -1731,7 +1731,7 @@ class combine_latest(Stream):
                                "emit on all incoming data")
         self.last.pop(self.upstreams.index(upstream))
         self.metadata.pop(self.upstreams.index(upstream))
-        self.missing.remove(upstream)
+        self.missing.discard(upstream)
         super(combine_latest, self)._remove_upstream(upstream)
         if self._initial_emit_on is None:
             self.emit_on = self.upstreams
